@@ -76,6 +76,25 @@ def run_nodes(ctx, behaviours, kinds, shards, test="TestNode"):
                          "proposals it signed: %s" % ((r["detail"].get("behaviour") or {}).get("me"), b["kind"], b["seq"],
                                                       " [directed schedule %s]" % name if name else "", r.get("sig")))
         r["detail"] = {"behaviour": r["detail"].get("behaviour")}
+    # what the engines were driven into (coverage of the interesting paths, from the recorded signatures)
+    feats = dict(nonnil_prevote=0, lock_precommit=0, own_proposal=0, reproposal=0, finalize=0, restart=0, vote_after_restart=0,
+                 relock_or_switch=0)
+    for r in cases.values():
+        sig = r.get("sig") or ""
+        toks = [t for t in sig.split(":", 1)[-1].split(",") if t]
+        pcs = [t for t in toks if t.startswith("pc") and not t.endswith(":nil")]
+        feats["nonnil_prevote"] += any(t.startswith("pv") and not t.endswith(":nil") for t in toks)
+        feats["lock_precommit"] += bool(pcs)
+        feats["relock_or_switch"] += len(pcs) > 1
+        feats["own_proposal"] += any(t.startswith("prop") for t in toks)
+        feats["finalize"] += "F" in toks or any("F(" in t for t in toks)
+        feats["restart"] += "R" in toks
+        if "R" in toks:
+            feats["vote_after_restart"] += any(t[:2] in ("pv", "pc") for t in toks[toks.index("R"):])
+    for ln in lines:
+        if ln.get("ev") == "signprop" and ln.get("pol", -1) >= 0:
+            feats["reproposal"] += 1
+    ctx.cov.update({"runs_with_" + k: v for k, v in feats.items()})
     ctx.notes.append("trace validation: %d recorded events of %d real engine executions checked against CsContract; "
                      "%d executions rejected for this property%s"
                      % (len(lines), len(cases), len(bad),
